@@ -1262,6 +1262,44 @@ def hfcOracle (h : HFC2) (outs : List (List (Nat × Nat × Nat × Manifold2 Floa
   | some r => s!"fail {r}"
   | none => hf2Oracle h.base (outs.map fun ms => ms.map fun (s1, s2, _, m) => (s1, s2, m))
 
+/-! #### `PolygonalFeature::contacts` on two edges -/
+structure EE3 where
+  pos12 : Iso3 Float
+  e1a : V3 Float
+  e1b : V3 Float
+  e2a : V3 Float
+  e2b : V3 Float
+  sep : V3 Float
+  flipped : Bool
+def pee3 : P EE3 := do
+  let p ← piso3; let a ← pv3; let b ← pv3; let c ← pv3; let d ← pv3; let s ← pv3; let f ← pbool
+  pure ⟨p, a, b, c, d, s, f⟩
+
+/-- at most two contacts; each (un-flipped) has its first witness on edge 1, its second on edge 2 (frame of shape 2), and
+`dist = (pos12·p2 − p1)·sep_axis1` -/
+def ee3Oracle (e : EE3) (pts : List (Contact3 Float)) : String :=
+  if pts.length > 2 then "fail more-than-two-contacts" else
+  let A1 := q3 e.e1a; let B1 := q3 e.e1b; let A2 := q3 e.e2a; let B2 := q3 e.e2b
+  let M := qiso3 e.pos12; let S := q3 e.sep
+  if !(pts.all finc3) then
+    -- the clipping divides 0 by 0 when edge 2 projects to a single value on edge 1 (or edge 1 is a point)
+    let t := B1.sub A1; let u0 := ((M.act A2).sub A1).dot t; let u1 := ((M.act B2).sub A1).dot t
+    if t.normSq = 0 || rabs (u1 - u0) ≤ (1 + t.normSq + rabs u0 + rabs u1) / 1000000000000 then "skip zero-projected-length" else "fail nonfinite-output"
+  else
+  let ptol : Rat := (1 + A1.normSq + B1.normSq + A2.normSq + B2.normSq + M.t.normSq) / 1000000000000
+  let bad := pts.findSome? fun c0 =>
+    let c := qc3 c0
+    let p1 := if e.flipped then c.p2 else c.p1
+    let p2 := if e.flipped then c.p1 else c.p2
+    let d := ((M.act p2).sub p1).dot S
+    if segDistSq3 A1 B1 p1 > ptol then some s!"p1-off-edge-1 d²={segDistSq3 A1 B1 p1}"
+    else if segDistSq3 A2 B2 p2 > ptol then some s!"p2-off-edge-2 d²={segDistSq3 A2 B2 p2}"
+    else if !(close c.dist d) then some s!"dist-identity dist={c.dist} expected={d}"
+    else none
+  match bad with
+  | some r => s!"fail {r}"
+  | none => "pass"
+
 /-! #### pfm/pfm pairs whose support features are edges -/
 
 structure Pfm3 where
@@ -1434,6 +1472,13 @@ def handler (fn : String) : Option Handler :=
       model := fun a => match run phfc2 a with | some h => hfcModel h | none => none
       oracle := fun a o => match run phfc2 a with
         | some h => withOut (pN (plist (do let a ← pnat; let b ← pnat; let t ← pnat; let m ← poman2; pure (a, b, t, m))) h.base.poses.length) o (hfcOracle h)
+        | none => "skip bad-args" }
+  | "ee3" => some {
+      model := fun a => run (do let e ← pee3
+                                let cs := edgeEdge3 orthonormalBasis3 ulpsEqF e.pos12 e.e1a e.e1b e.e2a e.e2b e.sep e.flipped
+                                pure (String.intercalate " " (toString cs.length :: cs.map fcontact3))) a
+      oracle := fun a o => match run pee3 a with
+        | some e => withOut (plist pocontact3) o (ee3Oracle e)
         | none => "skip bad-args" }
   | "pfm3" => some {
       model := fun _ => some "oracle-only"
